@@ -486,6 +486,9 @@ WSM = ("WHITESPACE", "_", ("seq", ("str", " "), ("str", "_")))
 CM = ("COMMENT", "_", ("seq", ("str", "#"), ("str", "!")))
 CMN = ("COMMENT", "", ("seq", ("str", "#"), ("str", "!")))
 
+# block comment: the usual "open ~ (!close ~ ANY)* ~ close" shape (a negative predicate and the skip idiom inside trivia)
+CMB = ("COMMENT", "_", ("seq", ("str", "#"), ("star", ("seq", ("not", ("str", "!")), ("any",))), ("str", "!")))
+
 TRIVIA: dict[str, list[Rule]] = {
     "none": [],
     "ws": [WS1],
@@ -497,6 +500,8 @@ TRIVIA: dict[str, list[Rule]] = {
     "both": [WS2, CM],
     "bothn": [WSN, CMN],
     "bothn1": [WSN, ("COMMENT", "", ("str", "#"))],
+    "cmb": [CMB],
+    "bothb": [WS2, CMB],
 }
 
 
@@ -527,13 +532,17 @@ def build(ctx: str, kind: str, triv: str) -> list[Rule] | None:
     return rules
 
 
-def family(trivs: list[str] | None = None, ctxs=None, kinds=None) -> list[dict[str, Any]]:
-    """Deterministic list of family members: dict(id, ctx, kind, triv, rules, text)."""
+def family(trivs: list[str] | None = None, ctxs=None, kinds=None, pick=None) -> list[dict[str, Any]]:
+    """Deterministic list of family members: dict(id, ctx, kind, triv, rules, text).
+
+    `pick(ctx_index, kind_index, triv)` (optional) selects a sub-family of the product."""
     out = []
     seen = set()
     for triv in trivs or list(TRIVIA):
-        for ctx in ctxs or CONTEXTS:
-            for kind in kinds or list(KINDS):
+        for ci, ctx in enumerate(ctxs or CONTEXTS):
+            for ki, kind in enumerate(kinds or list(KINDS)):
+                if pick is not None and not pick(ci, ki, triv):
+                    continue
                 rules = build(ctx, kind, triv)
                 if rules is None:
                     continue
